@@ -10,7 +10,7 @@
      spec_*         "for each chromosome the single-contig kernel on that chromosome's entries alone"
      model_*        the code's algorithm in concatenated coordinates *)
 From Coq Require Import ZArith List Bool Permutation Sorted Lia.
-From BNP Require Import Base.Prims Model.C10 Corr.C10 Proofs.C10 Proofs.C10_b Proofs.C10_c Proofs.C10_d Proofs.C10_e Gen.C10 Bridge.C10.
+From BNP Require Import Base.Prims Model.C10 Corr.C10 Proofs.C10 Proofs.C10_b Proofs.C10_c Proofs.C10_d Proofs.C10_e Proofs.C10_f Gen.C10 Bridge.C10.
 Import ListNotations.
 Open Scope Z_scope.
 
@@ -36,15 +36,37 @@ Print Assumptions C10_coords_lists.
 (* T0  ignored chromosomes (GenomeContext.mask_data): exactly the entries of included chromosomes survive, in order,
    re-coded to the rank of their chromosome among the included ones; under that code an entry is measured against its
    own chromosome's size, the code maps back to the chromosome, and entries of ignored chromosomes are dropped *)
-Theorem C10_mask_data : forall f g es d, let fl := incl_flags f g in
+Theorem C10_mask_data : forall (f : chrom -> bool) g es d, let fl := incl_flags f g in
   visible fl es = map (fun e => set_chr e (code_of fl (e_chr e))) (filter (fun e => nthd false fl (e_chr e)) es)
-  /\ (forall k, 0 <= k < len g -> keeps f (nthd d g k) = true ->
+  /\ (forall k, 0 <= k < len g -> f (nthd d g k) = true ->
         size_of (ctx_sizes f g) (code_of fl k) = c_size (nthd d g k)
         /\ uncode fl (code_of fl k) = k
         /\ 0 <= code_of fl k < len (ctx_sizes f g))
-  /\ (forall k, keeps f (nthd d g k) = false -> 0 <= k < len g -> nthd false fl k = false).
+  /\ (forall k, f (nthd d g k) = false -> 0 <= k < len g -> nthd false fl k = false).
 Proof. exact visible_spec. Qed.
 Print Assumptions C10_mask_data.
+
+(* T0'  Genome.with_ignored_added, any number of times after from_dict: the chromosomes of the resulting genome are exactly
+   those of the original dict that the filter keeps and that were never added as ignored — same order, same sizes;
+   an added name (existing or new) is never a chromosome, and a name the filter rejected does not come back.  Every
+   operation of the model reads the context only through these, so it equals the operation on the genome built
+   directly with that ignored set. *)
+Theorem C10_with_ignored_added : forall f g steps,
+  let x := ctx_steps f g steps in
+  filter (gx_keep x) (gx_dict x) = filter (fun c => keeps f c && never_added steps (c_name c)) g
+  /\ ctx_sizes (gx_keep x) (gx_dict x) = ctx_sizes (fun c => keeps f c && never_added steps (c_name c)) g
+  /\ ctx_us (gx_keep x) (gx_dict x) = ctx_us (fun c => keeps f c && never_added steps (c_name c)) g
+  /\ (forall c, In c g -> gx_keep x c = keeps f c && never_added steps (c_name c))
+  /\ (forall c s, In s steps -> In (c_name c) s -> gx_keep x c = false).
+Proof. exact with_ignored_added_spec. Qed.
+Print Assumptions C10_with_ignored_added.
+(* a with_ignored_added that forgets the previously ignored names is a different genome *)
+Theorem C10_with_ignored_added_dropping_refuted :
+  exists f g a, let x := ctx_from_dict f g in
+    filter (gx_keep {| gx_dict := dict_update (gx_dict x) a; gx_ign := a |}) (dict_update (gx_dict x) a)
+    <> filter (gx_keep (ctx_with_ignored_added x a)) (gx_dict (ctx_with_ignored_added x a)).
+Proof. exact with_ignored_added_dropping_refuted. Qed.
+Print Assumptions C10_with_ignored_added_dropping_refuted.
 
 (* T2  the genome-wide pileup / mask, cut at the chromosome offsets, is for every chromosome the
    single-contig pileup / mask of that chromosome's intervals alone — any number of chromosomes, any
@@ -282,7 +304,12 @@ Theorem C10_source_tie :
           else m_loc_center (e_start e) (e_stop e))
   /\ (forall szs d c, gap_shift szs d c = m_shift (off szs c) c d)
   /\ (forall szs us d es, model_merged szs us d es = model_merged_fixed szs us d es)
-  /\ (forall szs d es, model_geo_merge szs d es = model_merged_fixed szs [] d es).
+  /\ (forall szs d es, model_geo_merge szs d es = model_merged_fixed szs [] d es)
+  (* with_ignored_added: the new context ignores the added names together with the previously ignored ones, keeps every
+     original dict entry and gives added names size 0 *)
+  /\ (gen_wia_ignored_set = m_wia_ignored_set (* ["ignored"; "self._ignored"] *)
+      /\ gen_wia_dict_base = m_wia_dict_base (* "self._original_chrom_sizes" *) /\ gen_wia_added_size = 0)
+  /\ (forall x a, ctx_with_ignored_added x a = {| gx_dict := dict_update (gx_dict x) a; gx_ign := a ++ gx_ign x |}).
 Proof.
   exact (conj (fun size o p a g s t =>
            conj (b_from_local_reject size p) (conj (b_from_local_value o p) (conj (b_to_local_idx a g)
@@ -294,7 +321,7 @@ Proof.
            (conj (b_loc_stranded is_start fwd s t) (b_loc_center s t)))))))))
         (conj (fun x o c d => conj (b_merged_assert d) (conj (b_merged x o c d) (b_geo_merged x o c d)))
         (conj l_from_local (conj l_to_local (conj l_check_bounds (conj l_checks_negative (conj l_globalise
-        (conj l_clip (conj l_extend (conj l_windows (conj l_location (conj l_gap_shift (conj l_merged l_geo_merge)))))))))))))).
+        (conj l_clip (conj l_extend (conj l_windows (conj l_location (conj l_gap_shift (conj l_merged (conj l_geo_merge (conj b_with_ignored_added (fun x a => proj1 (l_with_ignored_added x a)))))))))))))))))).
 Qed.
 Print Assumptions C10_source_tie.
 
@@ -321,7 +348,7 @@ Qed.
 Example C10_link_nonvacuous :
   let c := {| k_genome := [ {| c_name := [99; 104; 114]; c_size := 3 |}; {| c_name := [99; 104; 95]; c_size := 2 |};
                             {| c_name := [99]; c_size := 4 |} ];
-              k_filter := KeepAll;
+              k_filter := KeepAll; k_added := [];
               k_entries := [mk 0 1 3; mk 1 0 1; mk 1 1 2];
               k_vals := []; k_op := OMerged false 1;
               k_obs := RIvs [(0, 1, 3); (1, 0, 2)] |} in
